@@ -102,7 +102,7 @@ theorem Inv_setBody {G : Grammar} (hinv : Inv F sg G) (i : Nat) (h : i < G.rules
     fun r hr => ?_, hnp⟩
   · rcases List.mem_or_eq_of_mem_set hr with h1 | h1
     · exact hinv.nodes r h1
-    · subst h1; exact hb
+    · subst h1; exact Or.inl hb
   · rcases List.mem_or_eq_of_mem_set hr with h1 | h1
     · exact hinv.skipMod r h1 hn
     · subst h1; exact hinv.skipMod G.rules[i] (List.getElem_mem h) hn
@@ -171,6 +171,15 @@ theorem runOnce_out {g : Grammar} {rules : List Rule} {p : Opt.Pass} {e e' : Exp
   · rw [if_pos hk] at h; exact absurd h (by simp)
   · rw [if_neg hk] at h; simp only [Option.some.injEq] at h; exact h.symm
 
+/-- no pass touches an `OptimizedChoiceRepeat` leaf -/
+theorem runOnce_starLeaf {g : Grammar} {rules : List Rule} {p : Opt.Pass} (hp : p ∈ Opt.defaultPasses)
+    {alts : List Alt} {b : Expr} (h : Opt.runOnce g rules p (.optChoice alts true) = some b) :
+    b = .optChoice alts true := by
+  have := runOnce_out h
+  subst this
+  simp only [Opt.defaultPasses, List.mem_cons, List.not_mem_nil, or_false] at hp
+  rcases hp with rfl | rfl | rfl | rfl | rfl <;> rfl
+
 /-- one pass over one body gives a `TR`-related body.  The two matcher passes enter through
     their builder lemmas `hsqB`, `hskB` (OptSoundSquash / OptSoundSkip). -/
 theorem runOnce_TR {g G : Grammar} {p : Opt.Pass} (hp : Allowed F p) (hinv : Inv F sg G)
@@ -236,7 +245,16 @@ theorem runStep_sound {g : Grammar} {p : Opt.Pass} (hp : Allowed F p) (B : Build
         let G : Grammar := { g with rules := rules }
         have hiG : i < G.rules.length := hi
         have hmem : rules[i] ∈ G.rules := List.getElem_mem hi
-        have hbody := hinv.nodes _ hmem
+        rcases hinv.nodes _ hmem with hbody | ⟨_, alts, hleaf⟩
+        case inr =>
+          -- the fused `OptimizedChoiceRepeat` is a leaf no pass touches
+          have hb : b = rules[i].body := by
+            rw [hleaf] at hro ⊢
+            exact runOnce_starLeaf hp.1 hro
+          have hset : rules.set i { rules[i] with body := b } = rules := by
+            rw [hb]; exact List.set_getElem_self hi
+          rw [hset] at h
+          exact ih (i + 1) rules rules' (by omega) hinv h
         have hflag : p.atomicOnly = true → (∀ b0, ruleAtomic rules[i].name rules[i].mod b0 = true) ∨ NoTrivia G := by
           intro hao
           have : Opt.isAtomicRule rules rules[i] = true := by
